@@ -92,10 +92,22 @@ func harnessFn(name string) externalFn {
 			fr.i.nowHook = a[0].(*value)
 			return nil
 		}
-	case "verifYield": // lets every other runnable goroutine run until it blocks
+	case "verifYield", "verifSettle": // lets every other runnable goroutine run until it blocks
 		return func(fr *frame, a []value) value {
 			yielded := false
 			fr.park(func() bool { r := yielded; yielded = true; return r }, "yield")
+			return nil
+		}
+	case "verifTimersManual": // time.NewTimer/After no longer fire by themselves (see extNewTimer)
+		return func(fr *frame, a []value) value { fr.i.manualTimers = true; return nil }
+	case "verifAdvanceTime": // fires every pending timer
+		return func(fr *frame, a []value) value {
+			for _, ch := range fr.i.pendingTimers {
+				if len(ch.buf) == 0 {
+					ch.buf = append(ch.buf, extTimeNow(fr, nil))
+				}
+			}
+			fr.i.pendingTimers = nil
 			return nil
 		}
 	case "verifWaitGroupCount":
